@@ -31,8 +31,8 @@ PROBES = ['mutated_then_reread_same_path', 'mutated_then_reread_other_path',
           'original_container_mutated', 'read_by_prefetch_worker',
           'first_access_object_mutated', 'cached_access_object_mutated']
 BUDGET = {
-    'quick': {'families': 1500, 'wall_cap': 240, 'shrink_s': 12},
-    'thorough': {'families': 60000, 'wall_cap': 3000, 'shrink_s': 30},
+    'quick': {'families': 7000, 'wall_cap': 420, 'shrink_s': 12},
+    'thorough': {'families': 70000, 'wall_cap': 5400, 'shrink_s': 30},
 }
 COMPONENTS = {
     'real': ['lazy_dataset.core: new / from_dict / from_list / NumpySerializedList / _CacheWrapper / '
